@@ -79,6 +79,15 @@ def run(tier, seed, replay=None):
                     data = open(p, "rb").read()
                     lead = b"# caf\xe9 \xff\n" if comps[-1].endswith(".py") else b"// caf\xe9 \xff\n"
                     open(p, "wb").write(data + lead)
+            # a UTF-8 byte order mark in front of some files whose first line is a function header: both commands must read
+            # the mark the same way, or the first function's column differs (seeded change C12-9)
+            for comps, x in files:
+                if x >= 2 and rng.random() < 0.15 and comps[-1].endswith((".py", ".js", ".c", ".ts", ".cpp")):
+                    p = os.path.join(root, *comps)
+                    data = open(p, "rb").read()
+                    if b"\xff" not in data and not data.startswith(b"\xef\xbb\xbf"):
+                        open(p, "wb").write(b"\xef\xbb\xbf" + data)
+                        chk.count("file starting with a UTF-8 byte order mark")
             # a lone carriage return as a line break inside some files (text-mode reading turns it into a line break)
             for comps, x in files:
                 if x >= 3 and rng.random() < 0.12 and comps[-1].endswith((".py", ".js", ".c", ".ts", ".cpp")):
